@@ -11,7 +11,7 @@ Local Open Scope Z_scope.
 (** Guarded statement (what holds of the code at HEAD).  For every timeframe dividing a day, record
     length, and history of write requests [reqs] (each a list of (epoch second, row bytes), in any
     order, with any duplicates, over any years 1970..2369) that contains at least one row and stays
-    outside the three defect classes named by [guard_C08], the all-time query issued through
+    outside the defect class named by [guard_C08] (daily bars dated January 1), the all-time query issued through
     ExecuteQuery on the bucket written by folding Writer.WriteCSM over the history returns exactly
     the elements of the last-writer-wins interval map. *)
 Theorem C08_lww : forall tfs recLen reqs,
@@ -54,7 +54,6 @@ Definition C08_stmt (g : Z -> Z -> list (list row) -> bool) : Prop := forall tfs
 Definition C08_full : Prop := C08_stmt (fun _ _ _ => true).
 
 Definition g_tf (tfs _ : Z) (_ : list (list row)) : bool := queryable_tfs tfs =? tfs.
-Definition g_prevyear (tfs _ : Z) (reqs : list (list row)) : bool := forallb (request_ok tfs) reqs.
 Definition g_jan1 (tfs _ : Z) (reqs : list (list row)) : bool := forallb (no_index0 tfs) reqs.
 Definition g_and (a b : Z -> Z -> list (list row) -> bool) tfs recLen reqs : bool :=
   a tfs recLen reqs && b tfs recLen reqs.
@@ -66,7 +65,7 @@ Definition b4 (a b c d : byte) : list byte := [a; b; c; d].
 Definition w_jan1 : list (list row) :=
   [[(1577836800, b4 x01 x00 x00 x00); (1577959200, b4 x02 x00 x00 x00)]].   (* 2020-01-01, 2020-01-02 *)
 
-Theorem C08_refuted_daily_jan1 : ~ C08_stmt (g_and g_tf g_prevyear).
+Theorem C08_refuted_daily_jan1 : ~ C08_stmt g_tf.
 Proof.
   intros H. unfold C08_full, C08_stmt in H. specialize (H 86400 16 w_jan1 eq_refl eq_refl).
   assert (Hr : has_row w_jan1) by apply has_row_cons.
@@ -74,31 +73,27 @@ Proof.
 Qed.
 Print Assumptions C08_refuted_daily_jan1.
 
-(** class prevyear-misfire (F3): WriteRecords never updates prevYear; rows
-    [2017-02-03 04:05; 2018-03-03 04:06; 2017-03-03 04:06] put the third row into the 2018 command *)
+(** a history that merges rows across a year boundary the way the pre-49eddda WriteRecords did
+    ([2017-02-03 04:05; 2018-03-03 04:06; 2017-03-03 04:06], class prevyear-misfire, now `fixed:`) is inside
+    the guard and answered correctly *)
 Definition w_prevyear : list (list row) :=
   [[(1486094700, b4 x01 x00 x00 x00); (1520049960, b4 x02 x00 x00 x00); (1488513970, b4 x03 x00 x00 x00)]].
 
-Theorem C08_refuted_prevyear : ~ C08_stmt (g_and g_tf g_jan1).
-Proof.
-  intros H. unfold C08_full, C08_stmt in H. specialize (H 60 16 w_prevyear eq_refl eq_refl).
-  assert (Hr : has_row w_prevyear) by apply has_row_cons.
-  specialize (H Hr). vm_compute in H. discriminate H.
-Qed.
-Print Assumptions C08_refuted_prevyear.
+Example C08_cross_year_regression : guard_C08 60 16 w_prevyear = true
+  /\ query_bucket_all 60 16 (fold_left (write_fixed 60 16) w_prevyear empty_store)
+     = Ok [(1486094700, b4 x01 x00 x00 x00); (1488513960, b4 x03 x00 x00 x00); (1520049960, b4 x02 x00 x00 x00)].
+Proof. split; vm_compute; reflexivity. Qed.
 
-(** class timeframe-requeried-as-other: ExecuteQuery rewrites the key's timeframe with
-    QueryableTimeframe, which answers "4H" with "2H" (utils.Timeframes lists 4H before 2H and is
-    walked from the end): a 4H bucket cannot be read back *)
-Definition w_4h : list (list row) := [[(1486094700, b4 x01 x00 x00 x00)]].
-
-Theorem C08_refuted_4H : ~ C08_stmt (g_and g_prevyear g_jan1).
+(** every timeframe of utils.Timeframes is its own queryable timeframe (since /repo commit d275195;
+    before it "4H" was answered with "2H": class timeframe-requeried-as-other, now `fixed:`) *)
+Theorem C08_timeframes_queryable : forall tfs,
+  existsb (Z.eqb tfs) timeframes_s = true -> queryable_tfs tfs = tfs.
 Proof.
-  intros H. unfold C08_full, C08_stmt in H. specialize (H 14400 16 w_4h eq_refl eq_refl).
-  assert (Hr : has_row w_4h) by apply has_row_cons.
-  specialize (H Hr). vm_compute in H. discriminate H.
+  intros tfs H. unfold timeframes_s in H. cbn [existsb] in H.
+  repeat (apply orb_prop in H as [H|H]; [apply Z.eqb_eq in H; subst; reflexivity|]).
+  discriminate H.
 Qed.
-Print Assumptions C08_refuted_4H.
+Print Assumptions C08_timeframes_queryable.
 
 Theorem C08_refuted : ~ C08_full.
 Proof.
@@ -108,14 +103,14 @@ Proof.
 Qed.
 Print Assumptions C08_refuted.
 
-(** the three guards together are exactly [guard_C08] on the domain *)
+(** the guards together are exactly [guard_C08] on the domain *)
 Theorem C08_guard_split : forall tfs recLen reqs,
   domain_ok tfs recLen reqs = true ->
-  g_and g_tf (g_and g_prevyear g_jan1) tfs recLen reqs = true ->
+  g_and g_tf g_jan1 tfs recLen reqs = true ->
   guard_C08 tfs recLen reqs = true.
 Proof.
-  intros tfs recLen reqs Hd Hg. unfold domain_ok in Hd. unfold g_and, g_tf, g_prevyear, g_jan1 in Hg.
-  rewrite !andb_true_iff in *. destruct Hd as [[[D1 D2] D3] D4]. destruct Hg as [G1 [G2 G3]].
+  intros tfs recLen reqs Hd Hg. unfold domain_ok in Hd. unfold g_and, g_tf, g_jan1 in Hg.
+  rewrite !andb_true_iff in *. destruct Hd as [[[D1 D2] D3] D4]. destruct Hg as [G1 G3].
   unfold guard_C08. rewrite !andb_true_iff. repeat split; try assumption.
   rewrite forallb_forall in *. intros x Hx. rewrite !andb_true_iff. auto.
 Qed.
